@@ -1,6 +1,50 @@
-// Extension commands for area "client" (owned by the builder of that area).
+// Extension commands for area "client" (properties C12 / C13): the client implementation
+// `MqttClientImpl` through the add-only facade `gneiss_mqtt::verif::client2`, and REAL tokio /
+// threaded clients on scripted in-memory transports (module `real` below, file ext_client_real.rs).
 // Return None when the command is not one of this module's.
-#[allow(unused_variables)]
+//
+//   KNEW <11 client-option tokens> | <connect-option tokens>      new MqttClientImpl with a synchronous event listener
+//   KOP START | STOP [<DISCONNECT packet>] | SHUTDOWN | LISTENER | USER <PUBLISH|SUBSCRIBE|UNSUBSCRIBE packet>
+//   KTRANS <State>        transition_to_state          KCOMP   compute_optional_state_transition
+//   KDATA x<hex>          handle_incoming_bytes        KWC     handle_write_completion
+//   KSVC <fill>           handle_service into a 4096-byte buffer already holding <fill> bytes
+//   KNST                  get_next_connected_service_time (due | later | never)
+//   KERR <Kind>           apply_error                  KTABLE  the complete 5x5x3 transition table
+// Every answer is `<outcome> <snapshot>` (see verif/client2.rs).
+//   RUN ...               real-driver scenarios, see ext_client_real.rs
+
+use gneiss_mqtt::verif::client2::Client2;
+use gneiss_mqtt::verif::text;
+use std::cell::RefCell;
+
+#[path = "ext_client_real.rs"]
+pub mod real;
+
+thread_local! {
+    static CLIENT: RefCell<Option<Client2>> = RefCell::new(None);
+}
+
+fn with_client<F: FnOnce(&mut Client2) -> Result<String, String>>(f: F) -> Result<String, String> {
+    CLIENT.with(|c| {
+        let mut guard = c.borrow_mut();
+        match guard.as_mut() { Some(client) => f(client), None => Err("no client (KNEW first)".to_string()) }
+    })
+}
+
 pub fn handle(toks: &[&str]) -> Option<Result<String, String>> {
-    None
+    let r = match toks[0] {
+        "KNEW" => Client2::new(&toks[1..]).map(|client| { let s = client.snapshot(); CLIENT.with(|c| *c.borrow_mut() = Some(client)); format!("ok {}", s) }),
+        "KOP" => with_client(|c| c.operation(&toks[1..])),
+        "KTRANS" => with_client(|c| c.transition_to_state(toks.get(1).ok_or("short")?)),
+        "KCOMP" => with_client(|c| Ok(c.compute_optional_state_transition())),
+        "KDATA" => with_client(|c| Ok(c.handle_incoming_bytes(&text::unhex(toks.get(1).ok_or("short")?)?))),
+        "KWC" => with_client(|c| Ok(c.handle_write_completion())),
+        "KSVC" => with_client(|c| Ok(c.handle_service(toks.get(1).ok_or("short")?.parse::<usize>().map_err(|_| "bad fill")?))),
+        "KNST" => with_client(|c| Ok(c.next_service())),
+        "KERR" => with_client(|c| c.apply_error(toks.get(1).ok_or("short")?)),
+        "KTABLE" => with_client(|c| c.transition_table()),
+        "RUN" => real::run(&toks[1..]),
+        _ => return None,
+    };
+    Some(r)
 }
